@@ -1164,13 +1164,13 @@ def render_extract(ex, vac=False, strip_proof=False):
         # R12 mut-self: `fn f(mut self, ..) { BODY }` -> `fn f(self, ..) { let mut __self = self; BODY[self := __self] }`
         # (Verus does not support a `mut self` parameter; rebinding a by-value parameter mutably is the same function)
         header, n_ = re.subn(r'\(\s*mut\s+self\b', '(self', header, count=1)
-        if n_ != 1:
-            raise Undecided('R12: no `mut self` parameter')
-        toks_ = tokenize(body)
-        body = ''.join(('__self' if (k_ == 'id' and t_ == 'self') else t_) for (k_, t_, _, _) in toks_)
-        bo_ = body.index('{')
-        body = body[:bo_ + 1] + ' let mut __self = self;' + body[bo_ + 1:]
-        log.append({'rule': 'R12', 'note': '`mut self` parameter rebound as `let mut __self = self;`, `self` renamed to `__self` in the body'})
+        toks_ = tokenize(body) if n_ == 1 else []
+        if n_ == 1:
+            body = ''.join(('__self' if (k_ == 'id' and t_ == 'self') else t_) for (k_, t_, _, _) in toks_)
+            bo_ = body.index('{')
+            body = body[:bo_ + 1] + ' let mut __self = self;' + body[bo_ + 1:]
+            log.append({'rule': 'R12', 'note': '`mut self` parameter rebound as `let mut __self = self;`, `self` renamed to `__self` in the body'})
+        # (a function that no longer has a `mut self` parameter is taken as it is)
     if ex.lift_async is not None:
         # R6b: lift the k-th `async move { .. }` block into an `async fn NAME(PARAMS) -> RET { .. }`; the block is
         # replaced by a call `NAME(args)` (creating the same future: the captured variables are moved into it)
